@@ -131,6 +131,7 @@ func (s *Session) execCallWith(st *State, c *ssa.CallCommon, fnv Value, args []V
 		res := s.freshResults(st, sig, "dyn")
 		if cs != nil {
 			cenv := s.callerEnv(st)
+			cenv.pos = pos
 			for _, a := range cs.Assume {
 				st.assume(s.evalBool(st, cenv, a.E, a.Src))
 			}
